@@ -40,14 +40,14 @@ def _mk_files(picks):
             ni += 1
             name = _NAMES[ni % len(_NAMES)]
         used.add(name.upper())
-        ftype, dtype = {"ml": (2, 0), "basic": (0, 0), "ascii": (0, 0xFF), "data": (1, 0xFF)}[kind]
+        ftype, dtype = {"ml": (2, 0), "basic": (0, 0), "ascii": (0, 0xFF), "data": (1, 0xFF), "ml_ascii": (2, 0xFF)}[kind]
         out.append(dict(name=name, ext="BIN" if ftype == 2 else "BAS", kind=kind, ftype=ftype, dtype=dtype,
                         load=load if ftype == 2 else 0, exec=exe if ftype == 2 else 0,
                         data=dict(n=_LENS[li % len(_LENS)], k=k, mode=k % 4, head="", tail="")))
     return out
 
 
-_pick = st.tuples(st.integers(0, 11), st.sampled_from(["ml", "ml", "basic", "ascii", "data"]), st.integers(0, 14),
+_pick = st.tuples(st.integers(0, 11), st.sampled_from(["ml", "ml", "basic", "ascii", "data", "ml_ascii"]), st.integers(0, 14),
                   st.integers(0, 10 ** 6), filegen.word, filegen.word)
 _files = st.lists(_pick, min_size=1, max_size=5).map(_mk_files)
 _case = st.fixed_dictionaries(dict(
@@ -81,7 +81,8 @@ def _write_source(case, datas, path):
         cont.add_files([filegen.to_coco(f, d) for f, d in zip(files, datas)])
         raw = bytes(bytearray(cont.get_buffer()))
     elif case["src_kind"] == "cas":
-        raw = c10.make_cas([dict(f, data=d) for f, d in zip(files, datas)], lead=rnd.choice([1, 16, 128, 300]))
+        raw = c10.make_cas([dict(f, data=d) for f, d in zip(files, datas)], lead=rnd.choice([1, 16, 128, 300]),
+                           gapflag=rnd.choice([0, 0, 0xFF]))
     else:
         raw = c10.make_dsk([dict(f, data=d) for f, d in zip(files, datas)], rnd)
     with open(path, "wb") as fh:
